@@ -747,21 +747,24 @@ TRIVIA_CLASSES = [" ", "\t", "\n", "\r\n", "   ", " \n\t ", "/**/", "/* c */", "
 TRIVIA_QUICK = [" ", "\n", "\r\n", "/**/", "/* c */", "/*x\ny*/", "// n\n", "//\n", " /* a */ // b\n /* c */ "]
 
 
-def gap_sweep(decls, classes=None):
+def gap_sweep(decls, classes=None, with_spans=False):
     """the specification printed minimally, and once per (gap between two tokens, trivia class)
-    with that trivia inserted at that gap only: yields (text, gap, trivia)"""
+    with that trivia inserted at that gap only: yields (text, gap, trivia) -- and, with_spans, the
+    spans of the basic_type tokens (the white space after the spelling belongs to the token)"""
     toks = []
     for d in decls:
         toks += tokens(d)
 
     def render(gap=None, triv=""):
         out = []
+        spans = []
         for i, (kind, text) in enumerate(toks):
             out.append(text)
             nxt = toks[i + 1] if i + 1 < len(toks) else None
             ins = triv if gap == i else ""
             if kind == "BT":
                 out.append(" " + ins)          # the atomic basic_type needs white space right after it
+                spans.append(text + " " + ins[:len(ins) - len(ins.lstrip(" \t\r\n"))])
                 continue
             need = nxt is not None and kind in ("KW", "ID") and nxt[0] in ("KW", "ID", "BT")
             if ins:
@@ -769,8 +772,10 @@ def gap_sweep(decls, classes=None):
                 out.append(ins if not need or ins[0] in " \t\r\n/" else " " + ins)
             elif need:
                 out.append(" ")
-        return "".join(out)
-    yield render(), None, ""
+        return "".join(out), spans
+    t, sp = render()
+    yield (t, None, "", sp) if with_spans else (t, None, "")
     for gap in range(len(toks)):
         for t in (classes or TRIVIA_CLASSES):
-            yield render(gap, t), gap, t
+            x, sp = render(gap, t)
+            yield (x, gap, t, sp) if with_spans else (x, gap, t)
